@@ -2593,7 +2593,17 @@ func (x *actorSystem) attachAndPublish(ctx context.Context, parent, pid *PID) (*
 		x.increaseActorsCounter()
 	}
 
-	if err := x.actors.addNode(parent, pid); err != nil {
+	if err := x.actors.addLiveNode(parent, pid); err != nil {
+		if errors.Is(err, errParentNotRunning) {
+			// the parent is being stopped (or the system is): the stop has already
+			// listed its children, so this actor would survive it as an orphan.
+			// Nothing is registered yet; run PostStop and fail the spawn.
+			if !pid.isStateSet(systemState) {
+				x.decreaseActorsCounter()
+			}
+			x.rollbackSpawn(ctx, pid, "parent stopped during spawn")
+			return nil, gerrors.ErrDead
+		}
 		if errors.Is(err, errNodeAlreadyExists) {
 			if node, ok := x.actors.node(pid.ID()); ok {
 				if canonical := node.value(); canonical != nil && canonical != pid {
